@@ -64,13 +64,17 @@ def judge(case, label, op, result, ka, kb, contact):
         case.nontrivial = True
 
 
-def laws(case, spec):
+def laws(case, spec, rng):
     import shapepy
 
     E, Wh = shapepy.EmptyShape(), shapepy.WholeShape()
-    for name, fn, want in (("S | ~S", lambda s: s | ~s, Wh), ("S & ~S", lambda s: s & ~s, E), ("S - S", lambda s: s - s, E),
-                           ("S ^ S", lambda s: s ^ s, E), ("S ^ ~S", lambda s: s ^ ~s, Wh),
-                           ("S - S (two objects)", None, E), ("S | ~S (two objects)", None, Wh)):
+    table = [("S | ~S", lambda s: s | ~s, Wh), ("S & ~S", lambda s: s & ~s, E), ("S - S", lambda s: s - s, E),
+             ("S ^ S", lambda s: s ^ s, E), ("S ^ ~S", lambda s: s ^ ~s, Wh),
+             ("S - S (two objects)", None, E), ("S | ~S (two objects)", None, Wh)]
+    if G.spec_is_curved(spec):
+        # a law on a curved shape costs 5-30 s (all segment pairs are identical: Newton from every start pair)
+        table = rng.sample(table[:5], 2) + [table[rng.choice([5, 6])]]
+    for name, fn, want in table:
         s = G.build(spec)
         if fn is None:
             t = G.build(spec)
@@ -137,8 +141,9 @@ def case(ctx):
         num = None if curved else rng.choice(["int", "frac", "float"])
         spec, _ = G.random_shape(rng, kind, num, curved, (0, 0), 10.0)
         case = Case(ctx, {"shape": spec, "mode": "laws"}, "laws-%s-%s" % (kind, "curved" if G.spec_is_curved(spec) else G.spec_num(spec)))
-        laws(case, spec)
-        constructed_singletons(case, rng, spec)
+        laws(case, spec, rng)
+        if not G.spec_is_curved(spec):
+            constructed_singletons(case, rng, spec)
         return case.finish()
     sa, sb, info = W.make_pair(rng, curved_prob=0.2)
     case = Case(ctx, {"A": sa, "B": sb, "kinds": info["ka"] + info["kb"]},
